@@ -694,6 +694,29 @@ func genFacts(w *bufio.Writer, repo string) error {
 		facts["consumeByKeyNextFirst"] = n == 1 && nx >= 0 && nx < ky
 	}
 	strFacts["readerDeleteCalls"] = calls(rd, "rs.Remove", "r.segment.Remove", "rs.Rename", "rs.Override")
+	// how often, and in which order, each read of a segment looks at its index (the head's index grows under the
+	// writer lock while a reader holds only the segment-list read lock: one look is atomic, two looks need an argument)
+	{
+		var parts []string
+		for _, fn := range []string{"Consume", "Get", "GetByKey", "GetByTime", "ConsumeByKey"} {
+			fd := readerGo.fn("reader", fn)
+			if err := need(fd, "reader."+fn); err != nil {
+				return err
+			}
+			var looks []string
+			ast.Inspect(fd.Body, func(n ast.Node) bool {
+				if c, ok := n.(*ast.CallExpr); ok {
+					f := exprStr(c.Fun)
+					if strings.HasPrefix(f, "index.") || strings.HasPrefix(f, "ix.") {
+						looks = append(looks, f[strings.IndexByte(f, '.')+1:])
+					}
+				}
+				return true
+			})
+			parts = append(parts, fn+":"+strings.Join(looks, ","))
+		}
+		strFacts["readerIndexLooks"] = strings.Join(parts, ";")
+	}
 	wd := writerGo.fn("writer", "Delete")
 	if err := need(wd, "writer.Delete"); err != nil {
 		return err
